@@ -36,10 +36,9 @@ func quotient(root map[string]any, at any, args ...any) any {
 			switch {
 			case i == 0:
 				iq = ii
+			case ii == 0:
+				panic(fmt.Errorf("divide by zero"))
 			case isFloat:
-				if ii == 0 {
-					panic(fmt.Errorf("divide by zero"))
-				}
 				fq /= float64(ii)
 			default:
 				iq /= ii
